@@ -303,11 +303,8 @@ class ServiceClass:
             # Exception raised by user's generator
             if exc:
                 LOGGER.error("Exception in handler bound to 'evt.EVT_C_FIND'")
-                LOGGER.error(
-                    "\nTraceback (most recent call last):\n"
-                    + "".join(traceback.format_tb(exc[2]))
-                    + f"{exc[0].__name__}: {exc[1]}"  # type: ignore
-                )
+                # `format_exception()` copes with exceptions that cannot be printed
+                LOGGER.error("\n" + "".join(traceback.format_exception(*exc)))
                 rsp_status = 0xC311
                 dataset = None
             else:
@@ -1769,11 +1766,8 @@ class QueryRetrieveServiceClass(ServiceClass):
             # Exception raised by user's generator
             if exc:
                 LOGGER.error("Exception in handler bound to 'evt.EVT_C_GET'")
-                LOGGER.error(
-                    "\nTraceback (most recent call last):\n"
-                    + "".join(traceback.format_tb(exc[2]))
-                    + f"{exc[0].__name__}: {exc[1]}"  # type: ignore
-                )
+                # `format_exception()` copes with exceptions that cannot be printed
+                LOGGER.error("\n" + "".join(traceback.format_exception(*exc)))
                 rsp_status = 0xC411
                 dataset = None
             else:
@@ -2197,11 +2191,8 @@ class QueryRetrieveServiceClass(ServiceClass):
             # Exception raised by handler
             if exc:
                 LOGGER.error("Exception in handler bound to 'evt.EVT_C_MOVE'")
-                LOGGER.error(
-                    "\nTraceback (most recent call last):\n"
-                    + "".join(traceback.format_tb(exc[2]))
-                    + f"{exc[0].__name__}: {exc[1]}"  # type: ignore
-                )
+                # `format_exception()` copes with exceptions that cannot be printed
+                LOGGER.error("\n" + "".join(traceback.format_exception(*exc)))
                 rsp_status = 0xC511
                 dataset = None
             else:
